@@ -751,3 +751,107 @@ func ruleOrder(c *Ctx) []*Ob {
 	}
 	return o.list
 }
+
+func init() {
+	register(&Rule{
+		ID: "SORT-2",
+		Doc: "All-of accumulation: a boolean that starts true before a loop, is updated inside it and is read after it (ensureSorted's `sorted`, batch.RequestSort's `sorted`) answers 'did every " +
+			"iteration succeed'; its update must be sticky - once false it stays false (`acc = acc && x`, in SSA a phi of the constant false on the edge where the old value is false). " +
+			"An update that forgets the old value lets the last element speak for all: ensureSorted then skips the blocking second pass while an earlier segment is still unsorted, and readers " +
+			"binary-search an unsorted segment.",
+		Props: []string{"C01", "C03", "C17", "C19"},
+		Floor: 1,
+		Run:   ruleSort2,
+	})
+}
+
+func ruleSort2(c *Ctx) []*Ob {
+	o := newObs(c, "SORT-2")
+	for _, f := range c.Funcs {
+		if c.isHarness(f) {
+			continue
+		}
+		fn := c.fname(f)
+		for _, b := range f.Blocks {
+			for _, ins := range b.Instrs {
+				phi, ok := ins.(*ssa.Phi)
+				if !ok {
+					break
+				}
+				bt, isBasic := phi.Type().Underlying().(*types.Basic)
+				if !isBasic || bt.Kind() != types.Bool || len(phi.Edges) != 2 {
+					continue
+				}
+				// loop header: one edge from a block dominated by b (back edge), the other the initial value
+				var init, back ssa.Value
+				for k, e := range phi.Edges {
+					if b.Dominates(b.Preds[k]) {
+						back = e
+					} else {
+						init = e
+					}
+				}
+				if init == nil || back == nil {
+					continue
+				}
+				if v, isK := constBool(init); isK && !v {
+					continue // starts false: an any-of / found flag, not an all-of accumulator
+				}
+				if _, isK := back.(*ssa.Const); isK {
+					continue // a 'first iteration' flag
+				}
+				// read after the loop?
+				usedOutside := false
+				if refs := phi.Referrers(); refs != nil {
+					for _, r := range *refs {
+						if scc := sccOf(f, b); r.Block() != nil && scc != nil && !scc[r.Block()] {
+							usedOutside = true
+						}
+						if _, isIf := r.(*ssa.If); isIf && r.Block() == b {
+							// the loop condition itself
+						}
+					}
+				}
+				// sticky: back = phi'[false on the edge where the old value (or the new test) is false, other]
+				sticky := false
+				if bp, isPhi := back.(*ssa.Phi); isPhi {
+					hasFalse, dependsOnOld := false, false
+					for k, e := range bp.Edges {
+						if v, isK := constBool(e); isK && !v {
+							hasFalse = true
+							pred := bp.Block().Preds[k]
+							if iff, isIf := pred.Instrs[len(pred.Instrs)-1].(*ssa.If); isIf {
+								cond := iff.Cond
+								for {
+									u, isU := cond.(*ssa.UnOp)
+									if !isU || u.Op != token.NOT {
+										break
+									}
+									cond = u.X
+								}
+								if cond == ssa.Value(phi) {
+									dependsOnOld = true
+								}
+							}
+						} else if e == ssa.Value(phi) {
+							dependsOnOld = true
+						}
+					}
+					sticky = hasFalse && dependsOnOld
+				}
+				if bo, isB := back.(*ssa.BinOp); isB && bo.Op == token.AND && (bo.X == ssa.Value(phi) || bo.Y == ssa.Value(phi)) {
+					sticky = true
+				}
+				if !usedOutside {
+					continue
+				}
+				why := "once false the accumulator stays false"
+				if !sticky {
+					why = "the accumulator is overwritten in every iteration without looking at its old value: only the last element decides. In ensureSorted this skips the waiting pass while an earlier segment is still unsorted (binary search on unsorted data: missing and duplicated keys)"
+				}
+				o.add(fn, "all-of accumulator "+phi.Comment, c.instrPos(phi), sticky, why)
+			}
+		}
+	}
+	return o.list
+}
